@@ -103,14 +103,14 @@ def _valid_property(sim):
                 return ('ev', ev[1], ev[2], extra_s if ev[3] is None else ('bin', 'and', ev[3], extra_s))
             p['pattern'] = (kind, trig, add_s(beh), bound)
     # sprinkle numeric constants (the serializer must null every non-finite float anywhere)
-    if sim.coin('const', 0.45):
+    if sim.coin('const', 0.5):
         c = sim.pick('constname', CONSTS)
         c2 = sim.pick('constname2', CONSTS)
-        where = sim.choose('constpos', 8)
+        where = sim.choose('constpos', 9)
         if where >= 6:
             big = sim.pick('bignum', ('123456789012345678901234567890', '1e400', '2.5e-320', '0.0', '1e22', '18446744073709551616',
-                                      '9' * 320, '1' + '0' * 309, '1' + '0' * 308, '7' * 5000))
-            extra = ('bin', sim.pick('bop', ('<', '=', '!=')), ('field', 'x'), ('un', '-', ('raw', big)) if where == 7 else ('raw', big))
+                                      '9' * 320, '1' + '0' * 309, '1' + '0' * 308, '7' * 5000, '4' * 400))
+            extra = ('bin', sim.pick('bop', ('<', '=', '!=')), ('field', 'x'), ('un', '-', ('raw', big)) if where == 7 else ('raw', big))  # where in 6..8
         elif where == 0:
             extra = ('bin', 'in', ('field', 'x'), ('range', ('un', '-', ('const', c)), ('const', c2), sim.coin('cx', 0.3), False))
         elif where == 1:
@@ -206,6 +206,8 @@ def gen_scenario(seed, cfg):
           'out_buffer': sim.pick('outbuf', (0, 16, 64, 512, 8192, 8192)),
           'out_encoding': sim.weighted('outenc', [(5, ['utf-8', 'strict']), (1.5, ['ascii', 'strict']), (1, ['latin-1', 'strict']),
                                                    (1, ['cp1252', 'strict']), (1.5, ['utf-8', 'surrogateescape'])]),
+          'stdout_tty': sim.coin('tty', 0.15),
+          'locale_encoding': sim.weighted('locale', [(6, 'utf-8'), (1.5, 'ascii'), (1, 'latin-1'), (1, 'cp1252')]),
           'sweep_seed': sim.subseed('sweep'), 'digest_gen': sim.digest()}
     return sc
 
@@ -328,8 +330,9 @@ def run_once(sc, faults):
                 designated = (st.st_dev, st.st_ino)
             except OSError:
                 designated = None
-        fs = simio.SimFS(root, faults.get('fs'))
+        fs = simio.SimFS(root, faults.get('fs'), locale_encoding=sc.get('locale_encoding'))
         out_raw = simio.FaultyRaw('stdout', faults.get('stdout'))
+        out_raw.tty = bool(sc.get('stdout_tty'))
         err_raw = simio.FaultyRaw('stderr', faults.get('stderr'))
         itr_spec = faults.get('interrupt')
         want_trace = itr_spec is not None or faults.get('count_events')
@@ -408,6 +411,14 @@ def run_once(sc, faults):
                 # injected truncation included)
                 d = disk_text(arg_path)
                 got = fs.delivered
+                if fs.locale_used and isinstance(got, str):
+                    # the program let the locale choose the decoding; a specification file is UTF-8
+                    # text whatever the locale, so the text it was GIVEN is the UTF-8 reading of the
+                    # bytes it received
+                    try:
+                        got = got.encode(fs.locale_encoding).decode('utf-8')
+                    except UnicodeError:
+                        got = None
                 if d is not None and got is not None:
                     if isinstance(got, bytes):
                         try:
@@ -613,6 +624,8 @@ def execute(sc, cfg, stats=None, only_plan=None, trace=None):
     count('handler_' + handler_of(base))
     count('content_' + sc['content_kind'])
     count('path_' + sc['path_kind'])
+    count('locale_' + str(sc.get('locale_encoding')))
+    count('stdout_' + ('terminal' if sc.get('stdout_tty') else 'file_or_pipe'))
     count('mode_%s_%s' % (sc['mode'], 'json' if sc['json'] else 'plain'))
     v = judge(sc, base)
     if v:
@@ -763,6 +776,8 @@ REAL_CASES = (
     ('typeerr', ['-o', 'json', '-p', 'globally: no a { (x + True) > 1 }']),
     ('plain', ['-p', '# id: p1\nafter a as M: b { x > @M.x } causes (c or d) within 0.5 s']),
     ('nanliteral', ['-o', 'json', '-p', 'globally: some b { x in {NAN, 1} }']),
+    # a UTF-8 file with a non-ASCII title, read by a process whose locale is not UTF-8
+    ('clocale_file', ['-o', 'json', '# title: "caf\u00e9 \u2264 5"\nglobally: no a { x > 1 }']),
 )
 
 
@@ -774,6 +789,20 @@ def real_case(name, argv, unbuffered):
     if unbuffered:
         env['PYTHONUNBUFFERED'] = '1'
     cmd = [sys.executable, '-m', 'hpl'] + list(argv)
+    if name == 'clocale_file':
+        d = tempfile.mkdtemp(prefix='hplsim_c19_real_')
+        try:
+            fpath = os.path.join(d, 'spec.hpl')
+            with open(fpath, 'w', encoding='utf-8') as f:
+                f.write(argv[-1])
+            env['LC_ALL'] = 'C'
+            env['PYTHONUTF8'] = '0'
+            env.pop('PYTHONIOENCODING', None)
+            env['PYTHONCOERCECLOCALE'] = '0'
+            p = subprocess.run([sys.executable, '-m', 'hpl'] + list(argv[:-1]) + [fpath], env=env, capture_output=True, timeout=120)
+            return p.returncode, p.stdout.decode('utf-8', 'replace'), None
+        finally:
+            shutil.rmtree(d, ignore_errors=True)
     if name not in ('devfull', 'closedpipe'):
         p = subprocess.run(cmd, env=env, capture_output=True, text=True, timeout=120)
         return p.returncode, p.stdout, None
@@ -792,7 +821,7 @@ def real_case(name, argv, unbuffered):
 
 def judge_real(name, argv, status, out):
     """The property, applied to a real process: None or (class, detail)."""
-    mode = 'inline'
+    mode = 'file' if name == 'clocale_file' else 'inline'
     text = argv[-1]
     parses, ast = oracle_parse(mode, text)
     if name in ('devfull', 'closedpipe'):
@@ -826,6 +855,8 @@ def real_process_crosscheck():
                 violations.append({'class': v[0], 'detail': '%s [%s]' % (v[1], tag), 'real_case': name, 'argv': list(argv),
                                    'unbuffered': unbuffered, 'status': real_status})
                 continue
+            if name == 'clocale_file':
+                continue  # judged by the property only; the stub's locale seam is exercised by the runs
             out_raw = simio.FaultyRaw('stdout', fault)
             err_raw = simio.FaultyRaw('stderr', None)
             res = simio.run_process(cli.main, list(argv), out_raw, err_raw, out_buffer=0 if unbuffered else 8192)
@@ -941,6 +972,8 @@ def main(argv):
         'handlers_reached': {k[8:]: v for k, v in sorted(stats.items()) if k.startswith('handler_')},
         'content_kinds': {k[8:]: v for k, v in sorted(stats.items()) if k.startswith('content_')},
         'path_kinds': {k[5:]: v for k, v in sorted(stats.items()) if k.startswith('path_')},
+        'invocations_by_stdout_kind': {k[7:]: v for k, v in sorted(stats.items()) if k.startswith('stdout_')},
+        'invocations_by_locale_encoding': {k[7:]: v for k, v in sorted(stats.items()) if k.startswith('locale_')},
         'argv_shapes': {k[5:]: v for k, v in sorted(stats.items()) if k.startswith('mode_')},
         'json_documents_compared_fault_free': stats.get('json_documents_compared', 0),
         'runs_not_judged_because_a_short_write_was_silently_dropped_by_the_unbuffered_text_layer': stats.get('runs_not_judged_silent_short_write', 0),
